@@ -282,7 +282,7 @@ func (ex *Exec) callClosure(fv *FuncV, args []Value) Value { return ex.call(fv, 
 func (ex *Exec) runBlocks(fr *frame, b *ssa.BasicBlock, pred *ssa.BasicBlock, stop *ssa.BasicBlock) (Value, *ssa.BasicBlock) {
 	skipPhis := false
 	if fr.visits == nil {
-		fr.visits = map[int]int{}
+		fr.visits = make([]int32, len(fr.fn.Blocks))
 	}
 	// free variables live after the numbered values
 	base := fr.info.n
@@ -291,7 +291,13 @@ func (ex *Exec) runBlocks(fr *frame, b *ssa.BasicBlock, pred *ssa.BasicBlock, st
 	}
 	for {
 		fr.visits[b.Index]++
-		if fr.visits[b.Index] > ex.cfg.MaxIter {
+		if stop != nil && len(fr.regionHeads) > 0 && b == fr.regionHeads[len(fr.regionHeads)-1] {
+			panic(&mergeAbort{"arm looped back to the branch"})
+		}
+		if int(fr.visits[b.Index]) > ex.cfg.MaxIter {
+			if stop != nil {
+				panic(&mergeAbort{"unwinding bound inside merge region"})
+			}
 			panic(&pathEnd{kind: "unwind", msg: fmt.Sprintf("%s block %d > %d iterations", fr.fn, b.Index, ex.cfg.MaxIter)})
 		}
 		// phis first (parallel assignment)
@@ -504,7 +510,7 @@ func (ex *Exec) subArray(arr *Cell, off, n int, t types.Type) *Cell {
 		return arr
 	}
 	ex.cellSeq++
-	c := &Cell{T: t, id: ex.cellSeq, Kids: make([]*Cell, n)}
+	c := &Cell{T: t, id: ex.cellSeq, age: ex.cellSeq, Kids: make([]*Cell, n)}
 	for i := 0; i < n; i++ {
 		c.Kids[i] = ex.kid(arr, off+i)
 	}
